@@ -117,6 +117,7 @@ UNIT_DRIVERS = {
     "open_lock": ["exclusive_enum_quick"],
     "wal_sticky": ["wal::log_enum_quick"],
     "compaction_inputs": ["snapshot::reads_enum_quick"],
+    "compaction_commit": ["levels::min_oldest_vlog_enum"],
     "flush_protocol": ["wal::crash_enum_quick", "snapshot::timetravel_enum_quick"],
     "queue_dequeue": ["transaction::conflict_enum"],
     "bptree_freelist": ["bptree_enum_quick"],
